@@ -98,11 +98,46 @@ func recordsOf(d *DataJ, se *SeriesJ) [][]SampleJ {
 	return recs
 }
 
+func nameMatchers(vs *parser.VectorSelector) int {
+	n := 0
+	for _, m := range vs.LabelMatchers {
+		if m.Name == "__name__" {
+			n++
+		}
+	}
+	if vs.Name != "" && n == 0 {
+		return 0
+	}
+	return n
+}
+
+func unparen(e parser.Expr) parser.Expr {
+	for {
+		p, ok := e.(*parser.ParenExpr)
+		if !ok {
+			return e
+		}
+		e = p.Expr
+	}
+}
+
+func hasRangeCall(e parser.Expr) bool {
+	found := false
+	parser.Inspect(e, func(node parser.Node, _ []parser.Node) error {
+		if _, ok := node.(*parser.MatrixSelector); ok {
+			found = true
+		}
+		return nil
+	})
+	return found
+}
+
 var gapFns = map[string]bool{"avg_over_time": true, "min_over_time": true, "max_over_time": true, "sum_over_time": true, "count_over_time": true, "last_over_time": true}
 
 // knownClass names the known-finding class a query falls into ("" = none). Queries of such a class are left out of the
 // generated campaigns (counted as excluded); each class has a replay under replays/C18/.
 func knownClass(d *DataJ, q QueryJ) string {
+	instant := q.Step == 0
 	if os.Getenv("C18_NO_EXCLUSIONS") != "" {
 		return ""
 	}
@@ -120,9 +155,9 @@ func knownClass(d *DataJ, q QueryJ) string {
 			if m.Value == "" {
 				return "matcher_with_empty_value"
 			}
-			// K3: a matcher on a label name that no series of the selected metric carries is ignored, although it
-			// does not match the empty string (upstream: no series)
-			if !m.Matches("") {
+			// K3: a matcher on a label name that no series of the selected metric carries is ignored although it does
+			// not match the empty string (upstream: no series), and it makes the other matchers of the selector ineffective
+			if others := len(u.vs.LabelMatchers) - 1 - nameMatchers(u.vs); !m.Matches("") || others > 0 {
 				has := false
 				for _, s := range d.Series {
 					if s.Labels["__name__"] == u.metric && s.Labels[m.Name] != "" {
@@ -167,6 +202,112 @@ func knownClass(d *DataJ, q QueryJ) string {
 	})
 	if k7 {
 		return "aggregation_grouping_names_metric_name"
+	}
+	// K10: grouped aggregation (by / without) directly over a vector-vector operator of which exactly one operand
+	// contains a range-function call: the answer is empty
+	k10, k10b := false, false
+	parser.Inspect(expr, func(node parser.Node, _ []parser.Node) error {
+		a, ok := node.(*parser.AggregateExpr)
+		if !ok || (len(a.Grouping) == 0 && !a.Without) {
+			return nil
+		}
+		inner := a.Expr
+		for {
+			p, ok := inner.(*parser.ParenExpr)
+			if !ok {
+				break
+			}
+			inner = p.Expr
+		}
+		b, ok := inner.(*parser.BinaryExpr)
+		if !ok || b.LHS.Type() != parser.ValueTypeVector || b.RHS.Type() != parser.ValueTypeVector {
+			return nil
+		}
+		if hasRangeCall(b.LHS) != hasRangeCall(b.RHS) {
+			k10 = true
+		}
+		// K10b: ... or the operator has an on/ignoring modifier (the grouping is applied to the operands before they are
+		// matched, label differences outside the by-list are lost)
+		if vm := b.VectorMatching; vm != nil && (vm.On || len(vm.MatchingLabels) > 0) {
+			k10b = true
+		}
+		return nil
+	})
+	if k10 {
+		return "grouped_aggregation_over_operator_mixing_selector_and_range_function"
+	}
+	if k10b {
+		return "grouped_aggregation_over_operator_with_on_or_ignoring"
+	}
+	// K11: instant query, a selector with a negative offset inside a vector-vector operator that is itself an operand
+	// of a vector-vector operator: the answer carries the timestamp t+|offset|
+	// K12: a comparison whose vector operand is a comparison with the scalar on the left-hand side
+	k11, k12 := false, false
+	parser.Inspect(expr, func(node parser.Node, path []parser.Node) error {
+		switch n := node.(type) {
+		case *parser.VectorSelector:
+			if n.OriginalOffset < 0 && instant {
+				vv := 0
+				for _, p := range path {
+					if b, ok := p.(*parser.BinaryExpr); ok && b.LHS.Type() == parser.ValueTypeVector && b.RHS.Type() == parser.ValueTypeVector {
+						vv++
+					}
+				}
+				if vv >= 2 {
+					k11 = true
+				}
+			}
+		case *parser.BinaryExpr:
+			if !n.Op.IsComparisonOperator() {
+				return nil
+			}
+			for _, side := range []parser.Expr{n.LHS, n.RHS} {
+				for {
+					p, ok := side.(*parser.ParenExpr)
+					if !ok {
+						break
+					}
+					side = p.Expr
+				}
+				if in, ok := side.(*parser.BinaryExpr); ok && in.Op.IsComparisonOperator() &&
+					in.LHS.Type() == parser.ValueTypeScalar && in.RHS.Type() == parser.ValueTypeVector {
+					k12 = true
+				}
+			}
+		}
+		return nil
+	})
+	// K13: instant query, aggregation directly over (vector-vector operator) <op> scalar: the aggregation is not applied
+	if instant {
+		k13 := false
+		parser.Inspect(expr, func(node parser.Node, _ []parser.Node) error {
+			a, ok := node.(*parser.AggregateExpr)
+			if !ok {
+				return nil
+			}
+			b, ok := unparen(a.Expr).(*parser.BinaryExpr)
+			if !ok {
+				return nil
+			}
+			for _, pair := range [][2]parser.Expr{{b.LHS, b.RHS}, {b.RHS, b.LHS}} {
+				if pair[1].Type() != parser.ValueTypeScalar {
+					continue
+				}
+				if in, ok := unparen(pair[0]).(*parser.BinaryExpr); ok && in.LHS.Type() == parser.ValueTypeVector && in.RHS.Type() == parser.ValueTypeVector {
+					k13 = true
+				}
+			}
+			return nil
+		})
+		if k13 {
+			return "instant_aggregation_over_vector_operator_combined_with_scalar"
+		}
+	}
+	if k11 {
+		return "instant_negative_offset_in_nested_vector_operator"
+	}
+	if k12 {
+		return "comparison_of_comparison_with_scalar_on_the_left"
 	}
 	// K8: range query, aggregation over a selector whose offset is larger than the step
 	if q.Step > 0 {
